@@ -499,6 +499,7 @@ def closure(check, area, c_exe, m_exe, init_ops, alphabet, max_depth, max_states
         seen[""] = True
     depth = 0
     closed = False
+    truncated = False
     while frontier and depth < max_depth:
         scripts = []
         for path, last in frontier:
@@ -519,12 +520,14 @@ def closure(check, area, c_exe, m_exe, init_ops, alphabet, max_depth, max_states
                 seen[st] = True
                 if len(seen) <= max_states:
                     nxt.append((sc, mo[-1]))
+                else:
+                    truncated = True
         frontier = nxt
         depth += 1
         if not frontier:
             closed = True
     check.stats["states"] += len(seen)
-    return closed
+    return closed and not truncated
 
 
 # ---------------------------------------------------------------------------
@@ -577,7 +580,7 @@ def run_scripts(chk, area, c_exe, m_exe, scripts, oracle=None, batch=4000):
             chk.notes.append("exploration stopped early after %d failing inputs" % len(chk.oracle_failures))
             return
         part = scripts[i:i + batch]
-        c, m = run_pair(c_exe, m_exe, part, jobs=int(os.environ.get("VERIF_JOBS", "8")))
+        c, m = run_pair(c_exe, m_exe, part, jobs=int(os.environ.get("VERIF_JOBS", str(min(16, os.cpu_count() or 8)))))
         chk.compare(area.NAME, part, c, m, oracle)
 
 
